@@ -241,7 +241,7 @@ func runC03(c *Ctx) {
 		}
 		// the transaction root is computed over this block's transaction IDs
 		okIDs := false
-		for _, b := range validate.Blocks {
+		for _, b := range blocksDeep(validate) {
 			for _, in := range b.Instrs {
 				if st, ok := in.(*ssa.Store); ok {
 					if _, isIA := st.Addr.(*ssa.IndexAddr); isIA {
@@ -280,7 +280,7 @@ func runC03(c *Ctx) {
 				if fn == nil {
 					return
 				}
-				for _, b := range fn.Blocks {
+				for _, b := range blocksDeep(fn) {
 					for _, in := range b.Instrs {
 						if fa, ok := in.(*ssa.FieldAddr); ok {
 							o, s := ownerOfFieldBase(fa.X.Type())
@@ -337,7 +337,7 @@ func runC03(c *Ctx) {
 		seal := p.Fn("pkg/generator.(*Generator).sealBlock")
 		if seal != nil {
 			got := map[string]string{}
-			for _, b := range seal.Blocks {
+			for _, b := range blocksDeep(seal) {
 				for _, in := range b.Instrs {
 					if st, ok := in.(*ssa.Store); ok {
 						if fa, ok := st.Addr.(*ssa.FieldAddr); ok {
@@ -405,7 +405,7 @@ func runC03(c *Ctx) {
 	// (e) Executer fields stored on the receive path before validation
 	{
 		pfacts := factsOf(process)
-		for _, b := range process.Blocks {
+		for _, b := range blocksDeep(process) {
 			for _, in := range b.Instrs {
 				st, ok := in.(*ssa.Store)
 				if !ok {
@@ -448,11 +448,11 @@ func runC03(c *Ctx) {
 	{
 		// Chain.maxTransactionsLength must reach a comparison somewhere
 		reads := 0
-		for _, fn := range p.OwnFuncs {
+		for _, fn := range p.Subjects() {
 			if !IsProd(fn) || len(fn.Blocks) == 0 || strings.HasSuffix(FuncKey(fn), "blockchain.NewChain") {
 				continue
 			}
-			for _, b := range fn.Blocks {
+			for _, b := range blocksDeep(fn) {
 				for _, in := range b.Instrs {
 					if fa, ok := in.(*ssa.FieldAddr); ok {
 						o, s := ownerOfFieldBase(fa.X.Type())
